@@ -1,27 +1,48 @@
 #!/usr/bin/env python3
-"""selftest/translator_harmless.py: the translator channel alone (bin/srccheck) over every behaviour-preserving patch of the
-self-test (selftest/own/h*.diff, selftest/refactor/*.diff), applied to scratch copies of /repo/src. No proof obligation may
-break on any of them (items / functions that are no longer found or translated drop out of the tie). Exit 1 otherwise."""
+"""selftest/translator_harmless.py [-j N]: the translator channel alone (bin/srccheck) over every behaviour-preserving patch of the
+self-test (selftest/own/h*.diff, selftest/refactor/*.diff), applied to scratch copies of /repo/src (N at a time, default 6).
+No proof obligation may break on any of them (items / functions that are no longer found or translated drop out of the
+tie). Exit 1 otherwise. The two receiver-policy edits H17-r2 and H21-r4 are expected to break `src_usartAccept_eq` /
+`src_canAccept_eq` (they change the receiver's policy inside C06's domain; DESIGN 0.4) and are listed as such."""
 import subprocess, json, sys, os, shutil, glob
+from concurrent.futures import ThreadPoolExecutor
 V = os.path.dirname(os.path.dirname(os.path.abspath(__file__)))
 S = "/tmp/translator_harmless"
-bad = 0
+POLICY = {"H17-r2.diff": {"src_usartAccept_eq"}, "H21-r4.diff": {"src_canAccept_eq"}}
+jobs = int(sys.argv[sys.argv.index("-j") + 1]) if "-j" in sys.argv else 6
 shutil.rmtree(S, ignore_errors=True)
 os.makedirs(S)
+
+
+def one(f):
+    d = os.path.join(S, os.path.basename(f).replace(".diff", ""))
+    os.makedirs(d)
+    shutil.copytree("/repo/src", os.path.join(d, "src"))
+    p = subprocess.run(["patch", "-p1", "-s", "-i", f], cwd=d, stdout=subprocess.PIPE, stderr=subprocess.STDOUT, text=True)
+    if p.returncode != 0:
+        return os.path.basename(f), None, p.stdout[-200:]
+    r = subprocess.run([os.path.join(V, "bin", "srccheck"), "--repo", d, "--work", os.path.join(d, "work")], stdout=subprocess.PIPE, text=True).stdout
+    shutil.rmtree(d, ignore_errors=True)
+    try:
+        return os.path.basename(f), json.loads(r), ""
+    except Exception:
+        return os.path.basename(f), None, r[-300:]
+
+
+bad = 0
 try:
-    for f in sorted(glob.glob(os.path.join(V, "selftest", "own", "h*.diff")) + glob.glob(os.path.join(V, "selftest", "refactor", "*.diff"))):
-        shutil.rmtree(os.path.join(S, "src"), ignore_errors=True)
-        shutil.copytree("/repo/src", os.path.join(S, "src"))
-        p = subprocess.run(["patch", "-p1", "-s", "-i", f], cwd=S, stdout=subprocess.PIPE, stderr=subprocess.STDOUT, text=True)
-        if p.returncode != 0:
-            print(os.path.basename(f), "patch does not apply", p.stdout[-200:])
-            bad += 1
-            continue
-        r = subprocess.run([os.path.join(V, "bin", "srccheck"), "--repo", S, "--work", os.path.join(S, "work")], stdout=subprocess.PIPE, text=True).stdout
-        d = json.loads(r)
-        ok = not d["failed"] and not d["not_evaluated"] and not d["errors"]
-        bad += not ok
-        print("%-34s %-12s failed=%s not_translated=%s not_extracted=%d" % (os.path.basename(f), "quiet" if ok else "FALSE ALARM", d["failed"], d["not_translated"], len(d["not_extracted"])), flush=True)
+    files = sorted(glob.glob(os.path.join(V, "selftest", "own", "h*.diff")) + glob.glob(os.path.join(V, "selftest", "refactor", "*.diff")))
+    with ThreadPoolExecutor(max_workers=jobs) as ex:
+        for name, d, err in ex.map(one, files):
+            if d is None:
+                print(name, "ERROR", err)
+                bad += 1
+                continue
+            expected = POLICY.get(name, set())
+            ok = set(d["failed"]) <= expected and not d["not_evaluated"] and not d["errors"]
+            bad += not ok
+            verdict = "quiet" if ok and not d["failed"] else ("policy change (expected)" if ok else "FALSE ALARM")
+            print("%-34s %-24s failed=%s not_translated=%s not_extracted=%d" % (name, verdict, d["failed"], d["not_translated"], len(d["not_extracted"])), flush=True)
 finally:
     shutil.rmtree(S, ignore_errors=True)
 sys.exit(1 if bad else 0)
